@@ -98,6 +98,8 @@ def main() -> int:
         mod = importlib.import_module(f"sa.props.{prop.lower()}")
     except ModuleNotFoundError:
         return analysis_error(prop, args.tier, "no checker registered for this property")
+    run = None
+    model = None
     try:
         model = Model(args.repo)
         run = Run(prop, args.tier)
@@ -106,6 +108,12 @@ def main() -> int:
             selftest(prop, args.repo, run)
         return run.finish(model)
     except AnalysisError as e:
+        # rules that had already reached a verdict keep it: a violation found before the analysis met a shape it cannot
+        # follow is still a violation (the rest of the check is recorded as not carried out)
+        if run is not None and model is not None and run.unlisted_findings():
+            run.note(f"analysis stopped early, remaining rules not evaluated: {e}")
+            print(f"ANALYSIS-INCOMPLETE property={prop}: {e}")
+            return run.finish(model)
         return analysis_error(prop, args.tier, str(e))
     except Exception as e:  # a traceback must never look like a violation
         traceback.print_exc()
